@@ -194,7 +194,7 @@ def _fresh_like(v, name):
 
 
 # -------------------------------------------------------------------------------------- call-site rule
-def apply_contract(run, fi, sp, env, dyn_cls):
+def apply_contract(run, fi, sp, env, dyn_cls, silent=False):
     """Modular call: assert requires, havoc modifies, assume ensures.  The callee body is not looked at."""
     run.note('contract:' + fi.qual)
     if dyn_cls is None and fi.cls:
@@ -202,11 +202,13 @@ def apply_contract(run, fi, sp, env, dyn_cls):
     pre = run.st.clone()
     props = sp.props
     for k, c in enumerate(expand(run, sp.requires, env, dyn_cls)):
+        if silent:
+            break
         g = eval_clause(run, c, env, fi=fi, dyn_cls=dyn_cls)
         run.emit('call.pre', g, '%s#%d' % (fi.qual, k), props=tuple(set(c.props or ()) | set(run.cur_props)),
                  meta={'callee': fi.qual, 'clause': c.text})
         run.st.assume(g)
-    if sp.raises:
+    if sp.raises and not silent:
         # the callee may reject the call; its own obligations show that it then leaves everything unchanged
         if run.path.choice(2) == 1:
             raise PyRaise(sp.raises[0] if isinstance(sp.raises, (list, tuple)) else 'Exception', 'in ' + fi.qual)
@@ -217,6 +219,10 @@ def apply_contract(run, fi, sp, env, dyn_cls):
     result = NONE
     if callable(sp.result):
         result = sp.result(run, env)
+    elif sp.result and sp.pure and (fi.is_static or sp.reads is not None):
+        # a pure static function is a function of its arguments: the result is a canonical term over them
+        # (rule: congruence of pure functions; purity is this callee's own frame / no-draw obligation)
+        result = canonical_result(run, fi, sp, env)
     elif sp.result:
         result = run.eng.materialise(run, sp.result, 'res_' + fi.name, allow_split=False)
     env2 = dict(env)
@@ -284,7 +290,7 @@ def frame_obligations(run, entry, descs, roots, props):
         if loc in deep:
             continue
         o1 = st.heap.get(loc)
-        if o1 is o0:
+        if o1 is o0 or o1 is None:
             continue
         nm = names.get(loc, 'loc%d' % loc)
         if isinstance(o0, Obj):
@@ -340,3 +346,63 @@ def _same_val(v0, v1):
     if isinstance(v0, StrV) and isinstance(v1, StrV):
         return z3.BoolVal(v0.s == v1.s)
     return z3.BoolVal(False)
+
+
+def _flatten(run, v, out):
+    if isinstance(v, (Num, BoolV, ArmV, SeqV, MatV, OpaqueV, OptArmV)):
+        out.append(v.term)
+    elif isinstance(v, StrV):
+        out.append(z3.Const('str:' + v.s, smt.Opaque))
+    elif isinstance(v, NoneV):
+        out.append(z3.BoolVal(False))
+    elif isinstance(v, Ref):
+        o = run.deref(v)
+        if isinstance(o, MapO):
+            out.append(o.keys)
+            for c in sorted(o.cols):
+                out.append(o.cols[c])
+        elif isinstance(o, SeqO):
+            out.append(o.term)
+        else:
+            raise Unsupported('canonical result over an argument of kind %s' % type(o).__name__)
+    elif isinstance(v, TupleV):
+        for x in v.items:
+            _flatten(run, x, out)
+    else:
+        raise Unsupported('canonical result over %r' % (v,))
+
+
+def canonical_result(run, fi, sp, env):
+    from .smt import F, Int, Real, ASeq, RSeq, Arm
+    args = []
+    for nm, _ in fi.params():
+        if nm == 'self' and not fi.is_static:
+            continue
+        _flatten(run, env[nm], args)
+    for r in (sp.reads or []):
+        # declared read set of a pure method: the part of the receiver's state the result is a function of
+        _flatten(run, eval_expr_in(run, r, env, fi=fi), args)
+    sig = [a.sort() for a in args]
+    base = 'fn:' + fi.qual
+    kind = sp.result
+
+    def mk(suffix, sort):
+        return F(base + suffix, *sig, sort)(*args)
+    RArr = z3.ArraySort(Arm, Real)
+    if kind == 'real':
+        return Num(mk('', Real))
+    if kind == 'int':
+        return Num(mk('', Int))
+    if kind in ('rseq', 'rlist'):
+        return SeqV('R', mk('', RSeq), kind == 'rlist')
+    if kind in ('aseq', 'alist'):
+        return SeqV('A', mk('', ASeq), kind == 'alist')
+    if kind == 'map:real':
+        return run.st.alloc(MapO(mk('#k', ASeq), {'': mk('#v', RArr)}, {'': 'real'}))
+    if kind == 'map:arm':
+        return run.st.alloc(MapO(mk('#k', ASeq), {'': mk('#v', z3.ArraySort(Arm, Arm))}, {'': 'arm'}))
+    if kind == 'map:dict':
+        return run.st.alloc(MapO(mk('#k', ASeq), {'#keys': mk('#ik', z3.ArraySort(Arm, ASeq)),
+                                                  '#vals': mk('#iv', z3.ArraySort(Arm, RArr))},
+                                 {'#keys': 'dict.keys', '#vals': 'dict.vals'}))
+    raise Unsupported('canonical result of kind ' + kind)
